@@ -1202,7 +1202,7 @@ func (c *FCtx) abstractTerms(hyps []*Term, goal *Term, cands []*Term) ([]*Term, 
 		}
 		r := t
 		if changed {
-			r = &Term{Op: t.Op, S: t.S, Args: args, Bound: t.Bound, Pat: t.Pat, Num: t.Num}
+			r = &Term{Op: t.Op, S: t.S, Args: args, Bound: t.Bound, Pat: t.Pat, Alts: t.Alts, Num: t.Num}
 		}
 		memo[t] = r
 		return r
